@@ -23,6 +23,8 @@ def list_cases(sh):
         pt = list(qcheck.tables_upto(v['rows'], 2))
         jt = list(qcheck.tables_upto(v['jrows'], 2))
         for kind, q in qs[sh['lo']:sh['hi']]:
+            if kind == 'wide':
+                continue
             if kind == 'plain':
                 for A in pt[::sh['stride']]:
                     yield q, A, None, None
